@@ -29,6 +29,8 @@
 (*                     table, SFileAddFileEx holding ARCHIVES                         [F-C06-b]     *)
 (*   "HasFileStale"    (before def3ee6) SFileHasFile / SFileVerifyFile on a writable archive        *)
 (*                     consulted the read-only snapshot taken at open                 [F-C19-c]     *)
+(*   "OpenFileGap"     (mutant, seeded/C19-s9) SFileOpenFileEx drops ARCHIVES after the lookup, before the   *)
+(*                     new handle is inserted into FILES                                            *)
 (*   "GetInfoNested"   (mutant, seeded/C19-s4) SFileGetFileInfo keeps FILES while it looks the    *)
 (*                     handle up in ARCHIVES (named guards instead of temporaries)                 *)
 (*   "CloseFileNested" (mutant, selftest/C19/mutant-6) SFileCloseFile takes ARCHIVES while it       *)
@@ -46,7 +48,7 @@ CONSTANTS
                   \* the allocation scheme is not part of the property)
 
 CodeDev == {"CloseSplit", "NoFindPurge", "FindLate", "FindNextNested", "VerifyRelock", "ProbeForever",
-            "HasFileStale", "CloseFileNested", "GetInfoNested"}
+            "HasFileStale", "CloseFileNested", "GetInfoNested", "OpenFileGap"}
 
 VARIABLES
     vdisk,     \* [ArchFiles -> [Names -> content]]   what is on disk
@@ -239,7 +241,7 @@ OF_Lookup(t) ==                             \* acquire ARCH; find_file + read_fi
        ELSE IF Arg(t).name \notin Names \/ View(varch[a])[Arg(t).name] = None
        THEN Finish(t, 0, <<>>, "not_found") /\ UNCHANGED vlock
        ELSE \/ /\ vfr' = [vfr EXCEPT ![t].dat = View(varch[a])[Arg(t).name]]
-               /\ vlock' = [vlock EXCEPT !["ARCH"] = t]
+               /\ IF "OpenFileGap" \in Dev THEN UNCHANGED vlock ELSE vlock' = [vlock EXCEPT !["ARCH"] = t]
                /\ Goto(t, "OpenFileEx1")
             \* find_file succeeds but read_file fails (ERROR_FILE_CORRUPT).  For a writable archive this is an
             \* outcome the Rust API itself produces (MutableArchive::read_file cannot decode a compressed file
@@ -255,7 +257,7 @@ OF_Id(t) ==                                 \* ARCH held; [NEXT]
 OF_Insert(t) ==                             \* ARCH held; [FILES]; release ARCH on return
     /\ At(t, "OpenFileEx2") /\ CanLock("FILES")
     /\ vfiles' = (Arg(t).tmp :> [arch |-> Arg(t).h, name |-> Arg(t).name, data |-> Arg(t).dat, pos |-> 0]) @@ vfiles
-    /\ Release(t, "ARCH")
+    /\ IF "OpenFileGap" \in Dev THEN UNCHANGED vlock ELSE Release(t, "ARCH")
     /\ Finish(t, Arg(t).tmp, <<>>, "ok")
     /\ UNCHANGED <<vdisk, vcap, vlist, varch, vfinds, vnext, vclosed>>
 
@@ -498,14 +500,28 @@ VA_VerifyOne(t) ==
 \* ============================================================================================
 \* SFileFindFirstFile / SFileFindNextFile / SFileFindClose      lib.rs:1907-2101
 \* ============================================================================================
+\* Search masks (the `name` argument of FindFirst).  The model works on abstract names, so a mask is a class:
+\*   "" / "m0" = "*", "m1" = "*.*" (everything), "m2" = "*.bin" and "m3" = "data\*" (the data files f*, g*),
+\*   "m4" = "data\?0.bin" (f0 and g0: non-matching entries in between), "m5" = the exact name of f2,
+\*   "m6" = no match, "m7" = "D\*" (the long names n*, upper-case directory)
+DataName(x) == x \in {"f0", "f1", "f2", "f3", "g0", "g1", "g2", "g3", "g4", "g5", "g6", "g7", "g8", "g9", "ga", "gb"}
+MaskMatch(m, x) ==
+    CASE m \in {"", "m0", "m1"} -> TRUE
+      [] m \in {"m2", "m3"}     -> DataName(x)
+      [] m = "m4"               -> x \in {"f0", "g0"}
+      [] m = "m5"               -> x = "f2"
+      [] m = "m7"               -> x \in {"n259", "n260", "n261", "n1024"}
+      [] OTHER                  -> FALSE
+\* a search = the listing filtered by the mask, delivered in order, every name once
+Filtered(r, m) == SelectSeq(Listing(r), LAMBDA x : MaskMatch(m, x))
 FF_Null(t) ==
     /\ At(t, "FindFirst0") /\ Arg(t).h = 0
     /\ Finish(t, 0, <<>>, "invalid_handle") /\ UNCHANGED <<tables, vlock, vclosed>>
 FF_List(t) ==                               \* [ARCH] list   (intended: ARCH stays held until FF_Insert)
     /\ At(t, "FindFirst0") /\ Arg(t).h # 0 /\ CanLock("ARCH")
     /\ IF Arg(t).h \notin DOMAIN varch THEN Finish(t, 0, <<>>, "invalid_handle") /\ UNCHANGED vlock
-       ELSE IF Listing(varch[Arg(t).h]) = <<>> THEN Finish(t, 0, <<>>, "not_found") /\ UNCHANGED vlock
-       ELSE /\ SetLst(t, Listing(varch[Arg(t).h]))
+       ELSE IF Filtered(varch[Arg(t).h], Arg(t).name) = <<>> THEN Finish(t, 0, <<>>, "not_found") /\ UNCHANGED vlock
+       ELSE /\ SetLst(t, Filtered(varch[Arg(t).h], Arg(t).name))
             /\ IF "FindLate" \in Dev THEN UNCHANGED vlock ELSE vlock' = [vlock EXCEPT !["ARCH"] = t]
             /\ Goto(t, IF "FindLate" \in Dev THEN "FindFirst1" ELSE "FindFirst2")
     /\ UNCHANGED <<tables, vclosed>>
@@ -591,6 +607,23 @@ Waits(t) == CASE vpc[t] \in {"VerifyArchive1", "FindNext1", "GetFileInfo1", "Clo
               [] vpc[t] \in {"FindFirst3", "CloseArchive3"} -> {"FINDS"}
               [] vpc[t] = "OpenArchive2" -> {"ARCH"}
               [] OTHER -> {}
+\* The lock the NEXT step of thread t acquires ("none": its next step takes no lock) -- one verif_sync point of the real
+\* code each.  Together with HeldBy(t) this is the spec's per-call lock trace: which lock is requested with which locks
+\* held (SFileOpenFileEx holds ARCHIVES from the lookup through the insert, ...).
+FilesFns == {"CloseFile", "ReadFile", "GetFileSize", "SetFilePointer", "GetFileName", "GetFileInfo"}
+ArchFns  == {"HasFile", "VerifyFile", "EnumFiles", "ExtractFile", "AddFile", "RemoveFile", "RenameFile", "FlushArchive",
+             "OpenFileEx", "VerifyArchive", "FindFirst", "GetArchiveName"}
+Requests(t) ==
+    IF vpc[t] = "Idle" \/ vpc[t] = "AddFileSpin" THEN "none"
+    ELSE IF Waits(t) # {} THEN CHOOSE l \in Waits(t) : TRUE
+    ELSE LET f == vfr[t] IN
+         IF vpc[t] # Entry(f.fn) \/ f.h = 0 THEN "none"
+         ELSE CASE f.fn \in FilesFns -> "FILES"
+                [] f.fn = "GetArchiveName" -> IF f.n2 = 0 THEN "none" ELSE "ARCH"
+                [] f.fn \in ArchFns -> "ARCH"
+                [] f.fn = "CloseArchive" -> IF "CloseSplit" \in Dev THEN "FILES" ELSE "ARCH"
+                [] f.fn \in {"FindNext", "FindClose"} -> "FINDS"
+                [] OTHER -> "none"
 NoSelfDeadlock == \A t \in Threads : \A l \in Waits(t) : vlock[l] # t
 NoHang == \A t \in Threads : vpc[t] # "AddFileSpin"
 \* no cycle in the waits-for graph of at most 3 threads x 4 locks: t waits for l held by u
